@@ -252,6 +252,10 @@ func VH_C16_quoted() {
 	_, _ = Parse(texts[(k+1)%len(texts)])
 	st2, err2 := Parse(texts[k])
 	verifAssert((err1 == nil) == (err2 == nil), "same verdict on the second parse")
+	// statements 0..3 and 7 are accepted by SQLite (5 and 6 are unterminated on purpose)
+	if k <= 3 || k == 7 {
+		verifAssert(err1 == nil, "a statement SQLite accepts parses, whatever quoting styles it mixes")
+	}
 	if ct1, ok := st1.(CreateTableStmt); ok {
 		ct2, ok2 := st2.(CreateTableStmt)
 		verifAssert(ok2 && ct1.Table == ct2.Table && len(ct1.Columns) == len(ct2.Columns), "same statement on the second parse")
@@ -434,6 +438,33 @@ func VH_C16_constraint_order() {
 			verifAssert(isStr && d == w, "DEFAULT <text> is reported whatever surrounds it")
 		}
 		verifAssert(b.Name == "b" && b.Type == "" && b.Null && !b.Unique && !b.PrimaryKey && b.Collate == "" && b.Default == nil && len(b.Checks) == 0, "the neighbour column reports nothing")
+	}
+	verifReach("end")
+}
+
+// Quoting styles next to each other: what a column's name (and a string
+// literal) unescapes to does not depend on how its neighbours are quoted.
+//verif:bounds CREATE TABLE with 3 columns, each name written bare, "double-quoted with a doubled quote", `backticked with a doubled backtick` or [bracketed with a blank] - all 64 combinations - the middle column with DEFAULT 'it''s'
+func VH_C16_quote_styles() {
+	texts := [4]string{"ab", `"a""b"`, "`a``b`", "[a b]"}
+	names := [4]string{"ab", `a"b`, "a`b", "a b"}
+	var st [3]int
+	for i := range st {
+		st[i] = verifChoice(4)
+	}
+	text := "CREATE TABLE t (" + texts[st[0]] + " INT, " + texts[st[1]] + " TEXT DEFAULT 'it''s', " + texts[st[2]] + ")"
+	verifDebugf("sql=%s", text)
+	parsed, err := Parse(text)
+	verifAssert(err == nil, "every mix of quoting styles parses")
+	ct, ok := parsed.(CreateTableStmt)
+	verifAssert(ok && len(ct.Columns) == 3, "three columns")
+	if ok && len(ct.Columns) == 3 {
+		for i := range st {
+			verifAssert(ct.Columns[i].Name == names[st[i]], "a quoted name unescapes the same way whatever precedes it")
+		}
+		verifAssert(ct.Columns[0].Type == "INT" && ct.Columns[1].Type == "TEXT" && ct.Columns[2].Type == "", "types are the columns' own")
+		d, isStr := ct.Columns[1].Default.(string)
+		verifAssert(isStr && d == "it's", "the string literal unescapes the same way whatever precedes it")
 	}
 	verifReach("end")
 }
